@@ -350,3 +350,48 @@ Proof.
   exact (union_init_loop fields args [] fields [] eq_refl).
 Qed.
 End U.
+
+(* ---- argument binding of a positional call ---- *)
+Section B.
+Variable V : Type.
+
+Lemma map_some_unwrap (l : list (option V)) :
+  map (fun s : option (option V) => match s with Some a => a | None => None end) (map Some l) = l.
+Proof. induction l as [|x r IH]; cbn; [reflexivity|now rewrite IH]. Qed.
+Lemma map_none_unwrap n :
+  map (fun s : option (option V) => match s with Some a => a | None => None end) (repeat None n) = repeat None n.
+Proof. induction n as [|n IH]; cbn; [reflexivity|now rewrite IH]. Qed.
+
+(* a call with positional values only: the values in order, the remaining parameters not given *)
+Theorem bind_positional (fields : list (string * V)) pos : length pos <= length fields ->
+  bind_args V (generate_init V fields) pos [] = Ok (pos ++ repeat None (length fields - length pos)).
+Proof.
+  intros H. unfold bind_args, generate_init. cbn [co_varnames tl]. rewrite map_length.
+  destruct (Nat.ltb_spec (length fields) (length pos)) as [L|L]; [lia|].
+  cbn [fold_left bind]. now rewrite map_app, map_some_unwrap, map_none_unwrap.
+Qed.
+Theorem too_many_positional_values_are_rejected (fields : list (string * V)) pos kw : length fields < length pos ->
+  bind_args V (generate_init V fields) pos kw = Err EType.
+Proof.
+  intros H. unfold bind_args, generate_init. cbn [co_varnames tl]. rewrite map_length.
+  destruct (Nat.ltb_spec (length fields) (length pos)) as [L|L]; [reflexivity|lia].
+Qed.
+
+Lemma nth_app_repeat_none (pos : list (option V)) k i : nth i (pos ++ repeat None k) None = nth i pos None.
+Proof.
+  destruct (Nat.lt_ge_cases i (length pos)) as [L|L].
+  - now rewrite app_nth1.
+  - rewrite app_nth2 by exact L. rewrite (nth_overflow pos) by exact L.
+    destruct (Nat.lt_ge_cases (i - length pos) k) as [L2|L2]; [now rewrite nth_repeat | now rewrite nth_overflow by (rewrite repeat_length; exact L2)].
+Qed.
+
+(* T(v1, ..., vk): the first k fields take the values (a None counts as not given), the others their defaults *)
+Theorem positional_construction (fields : list (string * V)) pos : length pos <= length fields -> NoDup (map fst fields) ->
+  exists args, bind_args V (generate_init V fields) pos [] = Ok args /\
+    exists attrs, run_init V (generate_init V fields) args = Ok attrs /\
+    forall i nm d, nth_error fields i = Some (nm, d) -> lookup nm attrs = Some (match nth i pos None with Some v => v | None => d end).
+Proof.
+  intros H ND. eexists. split; [apply bind_positional; exact H|]. eexists. split; [apply init_assigns_arguments_or_defaults|].
+  intros i nm d Hn. rewrite (constructed_field_is_argument_or_default V fields _ ND i nm d Hn). now rewrite nth_app_repeat_none.
+Qed.
+End B.
